@@ -33,6 +33,14 @@ def make_case(idx):
     if R.random() < 0.35 and lines:
         for _ in range(R.randint(1, 3)):
             lines[R.randrange(len(lines))] = gen.long_line(R, kind, R.choice([cols, cols * 2, cols * 3]))
+    fname = 'f1'
+    if R.random() < 0.25 and lines:
+        # another file type: its highlight patterns run over every drawn line (attributes only; the cells must not change)
+        fname = R.choice(['t.c', 't.sh', 't.go', 't.py', 't.tex', 't.ms', 'Makefile', 't.diff', 'letter', 't.bib', 't.nm', 'ls'])
+        code = ['#include <stdio.h>', 'int main(void) { return foo("s\\"", 1); } /* c */ // x', 'def foo(x): # c', 'func foo() {', 'foo() {', '.de foo', '\\fBbold\\fP \\*(xx', '\\section{a} % c $x$',
+                'foo: bar', '\t$(CC) -o $@ $<', '+added', '-removed', '@@ -1,2 +1,3 @@', 'From: a@b', '> quoted', '@article{key,', '"unterminated', '/* open comment']
+        for _ in range(R.randint(1, 6)):
+            lines[R.randrange(len(lines))] = R.choice(code)
     prog = []
     pre = R.choice(['', '', ':se nohl\n', ':se hll\n', ':se hll\n:se nohl\n', ':se noai\n'])
     n = R.randint(5, 30)
@@ -81,7 +89,7 @@ def make_case(idx):
     if raw and not horiz and R.random() < 0.5:
         # commands that move the cursor without redrawing anything
         prog.append(R.choice(['yb', 'y0', 'yB', 'y^', 'yFo', 'yTa', 'y2h', 'yk', 'y{', 'ma', '\x07']))
-    return {'lines': lines, 'rows': rows, 'cols': cols, 'pre': pre, 'prog': prog, 'idx': idx, 'kind': kind, 'raw': raw, 'horiz': horiz}
+    return {'lines': lines, 'rows': rows, 'cols': cols, 'pre': pre, 'prog': prog, 'idx': idx, 'kind': kind, 'raw': raw, 'horiz': horiz, 'fname': fname}
 
 
 def cells_of(line, W):
@@ -163,8 +171,8 @@ def run_case(args):
         for k in case['prog']:
             keys += k.encode() + b'\x1b' + NORM + b'\x0c\x0c'
             prefixes.append(keys)
-    files = {'f1': gen.buf_bytes(case['lines'])}
-    r, d = common.run_vi(vi, keys, files=files, timeout=90, lines=case['rows'], cols=case['cols'])
+    files = {case['fname']: gen.buf_bytes(case['lines'])}
+    r, d = common.run_vi(vi, keys, files=files, args=[case['fname']], timeout=90, lines=case['rows'], cols=case['cols'])
     common.rmcase(d)
     wit = {'index': idx, 'rows': case['rows'], 'cols': case['cols'], 'lines': case['lines'], 'program': case['prog'], 'pre': case['pre']}
     rep = common.san_report(r)
@@ -230,7 +238,7 @@ def window_check(vi, case, files, keys, final, W, wit, nck, nontriv, upto):
     prog_all = case['prog']
     case = dict(case, prog=prog_all[:upto + 1])
     keys2 = keys + ('i' + MARK + '\x1b:w! out\n').encode()
-    r2, d2 = common.run_vi(vi, keys2, files=files, timeout=90, lines=case['rows'], cols=case['cols'])
+    r2, d2 = common.run_vi(vi, keys2, files=files, args=[case['fname']], timeout=90, lines=case['rows'], cols=case['cols'])
     got = common.readf(d2, 'out')
     common.rmcase(d2)
     if got is None or r2.timed_out:
@@ -300,7 +308,7 @@ def run(tier, V):
     c0 = make_case(base)
     cov = {'evaluations': nck, 'distinct_nontrivial': nontriv, 'programs': n, 'checkpoints': nck,
            'rule': ('%d programs of 5-30 commands (motions, ^E ^Y ^D ^U ^F ^B z-commands, edits, puts, joins, undo/redo, ex commands, window commands) x buffers empty / shorter / longer than the window, long lines (horizontal scroll) '
-                    'x windows 3x10 .. 24x80 x hl/hll on/off.  after EVERY command a ^L^L checkpoint: emulated screen before the repaint == after it (rows of the active window and cursor); at the last checkpoint (for the 10%% horizontal-scroll programs - long lines, jumps to columns around multiples of the window width - at every checkpoint) a twin run gives buffer and cursor: '
+                    'x windows 3x10 .. 24x80 x hl/hll on/off x 25%% other file types (their highlight patterns).  after EVERY command a ^L^L checkpoint: emulated screen before the repaint == after it (rows of the active window and cursor); at the last checkpoint (for the 10%% horizontal-scroll programs - long lines, jumps to columns around multiples of the window width - at every checkpoint) a twin run gives buffer and cursor: '
                     'rows must be a contiguous window containing the cursor line and the terminal cursor must be on the marker\'s cell.  non-trivial = a checkpoint whose screen differs from the previous one (something was redrawn).' % n),
            'samples': [{'window': (c0['rows'], c0['cols']), 'program': [common.show(p, 20) for p in c0['prog'][:10]]}]}
     assumptions = ['a VT100-style terminal: CUP, CR, LF with scroll region, CUF/CUB, EL, IL/DL, DECSTBM, SGR (the complete set term.c emits)',
